@@ -320,6 +320,11 @@ def gen_tap(rng):
         leaves = [taproot.tapleaf_hash(bytes.fromhex(s[2:])) if re.match(r'^0x([0-9a-f]{2})*$', s) else b'\x00' * 32 for s in scripts]
         amount = 5000
         spk = rsign.spk_p2tr(rb(rng, 32))
+        if n == 1 and re.match(r'^0x([0-9a-f]{2})+$', scripts[0]) and key == ik.hex():
+            # the right output key (single leaf: the tree is unambiguous) - as a proper P2TR output, or at the END of some other script
+            q, par = taproot.output_key(ik, leaves[0])
+            spk = rng.choice([rsign.spk_p2tr(q), rsign.spk_p2tr(q), bytes([OP_0, 32]) + q, bytes([OP_2, 32]) + q, bytes([OP_1, 33, 0]) + q, bytes([OP_DUP]) + q, q, bytes([OP_16, 32]) + q,
+                              bytes([OP_HASH160, 20]) + q[:20] + bytes([OP_EQUAL]), bytes([OP_0, 20]) + q[:20], bytes([OP_1, 32]) + q + bytes([OP_NOP])])
         fund = rsign.funding_tx(rng, [(amount, spk)] * rng.choice([1, 2]))
         nin = rng.choice([1, 1, 1, 2, 3])
         idx = rng.randrange(nin)
